@@ -382,7 +382,7 @@ fn parse_usize_prefix(s: &str) -> Option<(usize, &str)> {
 
 pub fn cited(rec: &str) -> Option<Cited> {
     let first = rec.split('\n').next().unwrap_or("");
-    if let Some(rest) = first.strip_prefix("Syntax Error at ") {
+    if let Some(rest) = first.strip_prefix("Syntax Error at ").or_else(|| first.strip_prefix("Error at ")) {
         // "<line>:<col> : <text> :"
         let (line, rest) = parse_usize_prefix(rest)?;
         let rest = rest.strip_prefix(':')?;
